@@ -10,9 +10,15 @@ impl HasKey<Public> for V4 {
     type Key = PublicKey;
 
     fn decode(bytes: &[u8]) -> Result<PublicKey, PasetoError> {
-        crypto_sign::PublicKey::from_bytes(bytes)
-            .map(PublicKey)
-            .map_err(|_| PasetoError::InvalidKey)
+        let key = crypto_sign::PublicKey::from_bytes(bytes).map_err(|_| PasetoError::InvalidKey)?;
+
+        // `from_bytes` only checks the length: make sure the bytes are the encoding of a
+        // point on the curve. Point addition fails exactly when an operand does not decode
+        // to a curve point (small-order points, which paseto-v4 also accepts, are fine).
+        libsodium_rs::crypto_core::ed25519::add(key.as_bytes(), key.as_bytes())
+            .map_err(|_| PasetoError::InvalidKey)?;
+
+        Ok(PublicKey(key))
     }
     fn encode(key: &PublicKey) -> Box<[u8]> {
         key.0.as_bytes().to_vec().into_boxed_slice()
